@@ -77,6 +77,7 @@ func (s *server) HandleRequest(ctx *types.HttpContext) {
 
 		if sid := ctx.Query().Peek("sid"); sid != "" {
 			server_log.Debug("setting new request for existing client")
+			vhook.Yield("server.HandleRequest.verified")
 			if socket, ok := s.Clients().Load(sid); ok {
 				// the session may have completed an upgrade since the request was
 				// verified: its new transport serves no plain HTTP requests and
